@@ -1492,7 +1492,7 @@ def run(tier='quick', seed=0):
         checks.append(c)
         c, results = check_comparison_ops(6 if thorough else 5, results)
         checks.append(c)
-        c, results = check_grouping_sampled(2000 if thorough else 300, 9 if thorough else 7, 14, seed, results)
+        c, results = check_grouping_sampled(2000 if thorough else 160, 9 if thorough else 7, 14, seed, results)
         checks.append(c)
         checks.append(check_literals(tier, seed, results))
         checks.append(check_blank())
